@@ -184,6 +184,95 @@ class Interp:
             raise ProgramError("shape kind " + k)
         self.env[op["name"]] = s
 
+    def op_zoo(self, op) -> None:
+        """the less common entities of the public API; `name` is bound to the entity (or, for entities made of
+        several independent operations, `name`, `name_b`, ... as the kind says)"""
+        cb = self.cb
+        k = op["kind"]
+        a = op["args"]
+        nm = op["name"]
+
+        def sketch(sk):
+            t, s = sk["kind"], sk
+            if t == "onecore":
+                return cb.OneCoreDisk(s["c"], s["r"], s["n"])
+            if t == "fourcore":
+                return cb.FourCoreDisk(s["c"], s["r"], s["n"])
+            if t == "halfdisk":
+                return cb.HalfDisk(s["c"], s["r"], s["n"])
+            if t == "wrapped":
+                return cb.WrappedDisk(s["c"], s["corner"], s["radius"], s["n"])
+            if t == "oval":
+                return cb.Oval(s["c"], s["c2"], s["n"], s["radius"])
+            if t == "grid":
+                return cb.Grid(s["p1"], s["p2"], s["n1"], s["n2"])
+            if t == "splinedisk":
+                return cb.SplineDisk(s["c"], s["k1"], s["k2"], s["s1"], s["s2"])
+            if t == "halfsplinedisk":
+                return cb.HalfSplineDisk(s["c"], s["k1"], s["k2"], s["s1"], s["s2"])
+            if t == "quartersplinedisk":
+                return cb.QuarterSplineDisk(s["c"], s["k1"], s["k2"], s["s1"], s["s2"])
+            if t == "splinering":
+                return cb.SplineRing(s["c"], s["k1"], s["k2"], s["s1"], s["s2"], s["w1"], s["w2"])
+            if t == "mapped":
+                return cb.MappedSketch([self.pt(p) for p in s["positions"]], [list(q) for q in s["quads"]])
+            raise ProgramError("sketch kind " + t)
+
+        if k == "elbow":
+            self.env[nm] = cb.Elbow(a["c"], a["r1"], a["n1"], a["angle"], a["arc_c"], a["axis"], a["r2"])
+        elif k == "semicylinder":
+            self.env[nm] = cb.SemiCylinder(a["p1"], a["p2"], a["r"])
+        elif k == "revolvedring":
+            self.env[nm] = cb.RevolvedRing(a["p1"], a["p2"], cb.Face([self.pt(p) for p in a["face"]]), a.get("n", 8))
+        elif k == "rstack":
+            self.env[nm] = cb.RevolvedStack(sketch(a["sketch"]), a["angle"], a["axis"], a["origin"], a["repeats"])
+        elif k == "estack":
+            self.env[nm] = cb.ExtrudedStack(sketch(a["sketch"]), a["amount"], a["repeats"])
+        elif k == "extruded":
+            self.env[nm] = cb.ExtrudedShape(sketch(a["sketch"]), a["amount"])
+        elif k == "revolved":
+            self.env[nm] = cb.RevolvedShape(sketch(a["sketch"]), a["angle"], a["axis"], a["origin"])
+        elif k == "lofted":
+            s1 = sketch(a["sketch"])
+            s2 = s1.copy().translate(a["shift"])
+            if a.get("scale"):
+                s2.scale(a["scale"])
+            if a.get("twist"):
+                s2.rotate(a["twist"], a["shift"])
+            mid = None
+            if a.get("mid"):
+                mid = s1.copy().translate([x * 0.5 for x in a["shift"]]).scale(a["mid"])
+            self.env[nm] = cb.LoftedShape(s1, s2, mid)
+        elif k == "shell":
+            base = cb.Box(a["p1"], a["p2"])
+            self.env[nm + "_base"] = base
+            self.env[nm] = cb.Shell([base.get_face(s) for s in a["sides"]], a["amount"])
+        elif k == "connector":
+            b1 = cb.Box(a["p1"], a["p2"])
+            b2 = cb.Box(a["q1"], a["q2"])
+            if a.get("rot"):
+                b2.rotate(a["rot"], a["rot_axis"])
+            if a.get("rot_a"):
+                b1.rotate(a["rot_a"], a["rot_a_axis"])
+            self.env[nm + "_a"], self.env[nm + "_b"] = b1, b2
+            self.env[nm] = cb.Connector(b1, b2)
+        elif k == "wedge":
+            self.env[nm] = cb.Wedge(cb.Face([self.pt(p) for p in a["face"]]), a.get("angle"))
+        elif k == "revolve":
+            self.env[nm] = cb.Revolve(cb.Face([self.pt(p) for p in a["face"]]), a["angle"], a["axis"], a["origin"])
+        elif k == "njoint":
+            self.env[nm] = cb.NJoint(a["start"], a["center"], a["r"], a["branches"])
+        else:
+            raise ProgramError("zoo kind " + k)
+        for tf in op.get("transforms", []):
+            ent = self.env[nm]
+            if tf["t"] == "translate":
+                ent.translate(tf["d"])
+            elif tf["t"] == "rotate":
+                ent.rotate(tf["angle"], tf["axis"], tf.get("origin"))
+            elif tf["t"] == "scale":
+                ent.scale(tf["ratio"], tf.get("origin"))
+
     def op_chain(self, op) -> None:
         cb = self.cb
         src = self.env[op["source"]]
